@@ -186,6 +186,11 @@ def default_cases(pid):
     for mode, doc in (("normal", big), ("partial", big_partial)):
         out.append({"id": "big-" + mode, "seed": 101, "stream": "valid", "opts": [], "mode": mode, "version_comment": mode == "normal",
                     "link": False, "files_check": True, "doc": doc})
+    # the stale-end-alignment document again with other object sizes and alignments (the image shows the difference only when
+    # the middle segment ends off the alignment and the output section's own alignment does not make up for it)
+    for j in range(5):
+        out.append({"id": "stale-align-%d" % j, "seed": 211 + 17 * j, "stream": "valid", "opts": [["version", "us"]], "mode": "normal",
+                    "version_comment": False, "link": True, "doc": json.loads(json.dumps(combos[-1][1]))})
     for mode, doc in combos:
         out.append({"id": "combo%d" % k, "seed": 31 + k, "stream": "valid", "opts": [["version", "us"]], "mode": mode, "version_comment": False,
                     "link": mode == "normal", "doc": doc})
@@ -235,7 +240,7 @@ def delivered_files_check(w, c):
     f1 = w.h.run(req)
     if f1.get("outcome") != "ok" or not f1.get("files"):
         return None
-    for what, _ in _stale_variants("x\ny\n"):
+    for what, _ in _stale_variants("0123456789\nabcdefghij\n"):
         pre = []
         for path, text in f1["files"].items():
             v = dict(_stale_variants(text)).get(what)
@@ -250,9 +255,16 @@ def delivered_files_check(w, c):
     # the write is cut short or refused - the export must not report success with a truncated script
     if c.get("files_check") and max(len(t) for t in f1["files"].values()) > 3 * 8192:
         from . import run as _run
+        # (only the script is written in this run: the other outputs would hit the limit as well and report it)
+        doc6 = copy.deepcopy(c["doc"])
+        for key in ("symbols_header_path", "d_path"):
+            (doc6.get("settings") or {}).pop(key, None)
+        req6 = engine.impl_request(dict(c, doc=doc6, repeat=1, history=False))
+        req6["op"] = "files"
+        req6["out"] = "out/script.ld"
         lim = _run.Harness(fsize=8192)
         try:
-            f6 = lim.run(dict(req))
+            f6 = lim.run(req6)
         finally:
             lim.close()
         if f6.get("outcome") == "ok":
